@@ -1134,3 +1134,303 @@ Proof.
       * apply In_somes_nth in Hit. destruct Hit as [j Hj]. apply A1 in Hj. rewrite <- Ek.
         eapply nth_error_In; eauto.
 Qed.
+
+Lemma place_fold_length : forall tasks c d, length (fst (place_fold tasks (c, d))) = length c.
+Proof.
+  induction tasks as [|tx tasks IH]; intros c d; [reflexivity|].
+  cbn [place_fold fold_left fst snd].
+  fold (place_fold tasks (set_nth (fst tx) (Some (snd tx)) c, mount_at c (fst tx) (snd tx) mk d)).
+  rewrite IH. apply set_nth_length.
+Qed.
+
+Let w0 : work :=
+  {| w_children := map Some its; w_dom := pre ++ flat_map it_nodes its ++ mk :: post;
+     w_log := []; w_next := next; w_gen := gen; w_panic := false |}.
+Let w1 := fold_left step_remove r w0.
+Let wm2 := fold_left step_take ms (w1, []).
+Let w3 := with_children (fst wm2) (w_children (fst wm2) ++ repeat None (length a)).
+Let w4 := fold_left (step_nondom (snd wm2)) (enumerate_from 0 ms) w3.
+Let w5 := fold_left (step_dom mk (snd wm2)) (enumerate_from 0 ms) w4.
+Let w6 := fold_left (step_add m mk to) a w5.
+Let unmount_log := map (fun i => EvUnmount (it_key (item_at i)) (it_gen (item_at i))) r.
+
+Lemma apply_general_eq :
+  apply_general m r ms a to w0 = with_children w6 (map Some (somes (w_children w6))).
+Proof.
+  unfold apply_general, w6, w5, w4, w3, wm2, w1.
+  destruct (fold_left step_take ms (fold_left step_remove r w0, [])) as [w mc]. reflexivity.
+Qed.
+
+Lemma dom0_render : w_dom w0 = render nodes_of pre post mk from.
+Proof.
+  unfold w0, render. cbn [w_dom]. f_equal. f_equal. unfold nodes_of, from. symmetry.
+  apply flat_nodes_in.
+  - exact (wf_keys _ _ _ _ _ wf_all).
+  - intros it Hit. unfold all. apply in_or_app. left. auto.
+Qed.
+
+Lemma phases_1_4 :
+  w_children w4 = c4 /\ w_dom w4 = render nodes_of pre post mk seq1 /\
+  w_log w4 = unmount_log ++ nondom_log xof ms /\ w_next w4 = next /\ w_gen w4 = gen /\
+  w_panic w4 = false /\ snd wm2 = map (fun mv => Some (xof mv)) ms.
+Proof.
+  (* removals *)
+  destruct (fold_step_remove item_at r w0 eq_refl r_nodup) as [C1 [D1 [L1 [N1 [G1 P1]]]]].
+  { intros i Hi. destruct (r_facts i Hi) as [H1 _]. unfold w0. cbn [w_children].
+    apply map_nth_error. auto. }
+  fold w1 in C1, D1, L1, N1, G1, P1.
+  (* move-outs *)
+  destruct (fold_step_take item_at ms w1 [] P1 froms_nodup) as [C2 [M2 [D2 [L2 [N2 [G2 P2]]]]]].
+  { intros mv Hmv. destruct (ms_facts mv Hmv) as [H1 [H2 [H3 [H4 [H5 [H6 [H7 H8]]]]]]].
+    rewrite C1. unfold w0. cbn [w_children]. rewrite clear_at_notin.
+    - apply map_nth_error. auto.
+    - intro Hc. destruct (r_facts _ Hc) as [_ [_ Hn]]. apply Hn. exact H8. }
+  fold wm2 in C2, M2, D2, L2, N2, G2, P2. cbn [app] in M2.
+  assert (w_children w3 = c3) as C3.
+  { unfold w3. cbn [with_children w_children]. rewrite C2, C1. reflexivity. }
+  assert (w_panic w3 = false) as P3 by (unfold w3; cbn [with_children w_panic]; auto).
+  (* moves that do not touch the DOM *)
+  destruct (fold_step_nondom (snd wm2) xof ms 0 w3 P3) as [C4 [D4 [L4 [N4 [G4 P4]]]]].
+  { intros j mv Hj Hd. cbn [Nat.add]. rewrite M2, C3, c3_length. split.
+    - rewrite nth_error_map, Hj. reflexivity.
+    - assert (In mv ms) as Hmv by (eapply nth_error_In; eauto).
+      destruct (ms_facts mv Hmv) as [_ [_ [_ [_ [_ [_ [H7 _]]]]]]]. pose proof to_length_bound. lia. }
+  fold w4 in C4, D4, L4, N4, G4, P4.
+  repeat split; auto.
+  - rewrite C4, C3. reflexivity.
+  - rewrite D4. unfold w3. cbn [with_children w_dom]. rewrite D2, D1, dom0_render.
+    rewrite (render_unmount_all nodes_of U item_at).
+    + reflexivity.
+    + apply good_all.
+    + intros k Hk. unfold U, all. rewrite map_app. apply in_or_app. left. auto.
+    + intros i Hi. destruct (r_facts i Hi) as [_ [Hin _]].
+      assert (In (item_at i) all) as Hall by (unfold all; apply in_or_app; left; auto).
+      destruct (all_nodes _ Hall) as [H1 [H2 _]]. auto.
+  - rewrite L4. unfold w3. cbn [with_children w_log]. rewrite L2, L1. reflexivity.
+  - rewrite N4. unfold w3. cbn [with_children w_next]. rewrite N2, N1. reflexivity.
+  - rewrite G4. unfold w3. cbn [with_children w_gen]. rewrite G2, G1. reflexivity.
+Qed.
+
+Lemma dom_tasks_in : forall t x, In (t, x) (dom_tasks xof ms) <->
+  exists mv, In mv ms /\ m_dom mv = true /\ t = m_to mv /\ x = xof mv.
+Proof.
+  intros t x. unfold dom_tasks. rewrite in_flat_map. split.
+  - intros [mv [Hmv Hin]]. destruct (m_dom mv) eqn:Ed; [|contradiction].
+    destruct Hin as [E|[]]. inversion E. subst. eauto.
+  - intros [mv [Hmv [Hd [E1 E2]]]]. exists mv. split; auto. rewrite Hd. left. congruence.
+Qed.
+
+Lemma dom_tasks_keys_nodup : NoDup (map (fun tx => it_key (snd tx)) (dom_tasks xof ms)).
+Proof.
+  pose proof froms_nodup as Hnd. pose proof ms_facts as Hf. pose proof from_nodup as Hfr.
+  assert (forall mv mv', In mv ms -> In mv' ms -> it_key (xof mv) = it_key (xof mv') -> m_from mv = m_from mv') as Hinj.
+  { intros mv mv' H1 H2 E. destruct (Hf mv H1) as [_ [_ [_ [A _]]]]. destruct (Hf mv' H2) as [_ [_ [_ [B _]]]].
+    rewrite E in A. eapply nodup_nth_inj; eauto. }
+  clear Hf. unfold dom_tasks.
+  assert (forall l, NoDup (map m_from l) ->
+            (forall mv mv', In mv l -> In mv' l -> it_key (xof mv) = it_key (xof mv') -> m_from mv = m_from mv') ->
+            NoDup (map (fun tx => it_key (snd tx))
+                       (flat_map (fun mv => if m_dom mv then [(m_to mv, xof mv)] else []) l))) as Hgen.
+  { clear. induction l as [|mv l IH]; intros Hnd Hinj; [constructor|].
+    cbn [flat_map map] in *. inversion Hnd as [|? ? H1 H2]; subst. destruct (m_dom mv).
+    - cbn [app map snd]. constructor.
+      + intro Hc. apply in_map_iff in Hc. destruct Hc as [[t x] [E Hin]]. cbn [snd] in E.
+        apply in_flat_map in Hin. destruct Hin as [mv' [Hmv' Hin]]. destruct (m_dom mv'); [|contradiction].
+        destruct Hin as [E'|[]]. inversion E'. subst. apply H1.
+        rewrite (Hinj mv mv'); auto; [apply in_map; auto | left; auto | right; auto].
+      + apply IH; auto. intros; apply Hinj; auto; right; auto.
+    - apply IH; auto. intros; apply Hinj; auto; right; auto. }
+  apply Hgen; auto.
+Qed.
+
+Lemma add_tasks_in : forall items adds nx g t x, In (t, x) (add_tasks m items nx g adds) ->
+  exists ad, In ad adds /\ t = a_at ad /\ it_key x = nth (a_at ad) items 0%N.
+Proof.
+  induction adds as [|ad adds IH]; intros nx g t x H; [contradiction|].
+  cbn [add_tasks] in H. destruct H as [E|H].
+  - inversion E. subst. exists ad. repeat split; auto. left. auto.
+  - destruct (IH _ _ _ _ H) as [ad' [H1 [H2 H3]]]. exists ad'. repeat split; auto. right. auto.
+Qed.
+
+Lemma flat_nodup : forall (f : N -> list node) s, NoDup s ->
+  (forall k, In k s -> NoDup (f k)) ->
+  (forall k k' n, In k s -> In k' s -> k <> k' -> In n (f k) -> ~ In n (f k')) ->
+  NoDup (flat_map f s).
+Proof.
+  induction s as [|k s IH]; intros Hnd H1 H2; [constructor|]. cbn [flat_map]. inversion Hnd; subst.
+  apply NoDup_app_intro.
+  - apply H1. left. auto.
+  - apply IH; auto.
+    + intros; apply H1; right; auto.
+    + intros k1 k2 n A B; apply H2; right; auto.
+  - intros n Hn Hc. apply in_flat_map in Hc. destruct Hc as [k' [Hk' Hn']].
+    eapply (H2 k k' n); eauto; [left; auto | right; auto | intro; subst; contradiction].
+Qed.
+
+Lemma render_nodup : forall s, NoDup s -> (forall k, In k s -> In k U) ->
+  NoDup (render nodes_of pre post mk s).
+Proof.
+  intros s Hnd HU. pose proof good_all as G. unfold render.
+  eapply Permutation_NoDup; [apply Permutation_app_swap_app|].
+  apply NoDup_app_intro.
+  - apply flat_nodup; auto.
+    + intros k Hk. apply (g_nodup _ _ _ _ _ G). auto.
+    + intros k k' n Hk Hk' Hne Hn. eapply (g_disj _ _ _ _ _ G k k'); eauto.
+  - exact (g_sibs _ _ _ _ _ G).
+  - intros n Hn. apply in_flat_map in Hn. destruct Hn as [k [Hk Hn]].
+    eapply (g_sib _ _ _ _ _ G k n); eauto.
+Qed.
+
+Lemma flat_map_items : forall l, (forall it, In it l -> nodes_of (it_key it) = it_nodes it) ->
+  flat_map nodes_of (map it_key l) = flat_map it_nodes l.
+Proof.
+  induction l as [|x l IH]; intros H; [reflexivity|]. cbn [map flat_map].
+  rewrite H by (left; auto). rewrite IH; auto. intros; apply H; right; auto.
+Qed.
+
+(** [apply_diff] in the general case: final items, DOM, log, allocation counters and the
+    well-formedness of the new state *)
+Theorem apply_general_ok :
+  let w := apply_general m r ms a to w0 in
+  let items' := somes (w_children w) in
+  w_panic w = false /\ map it_key items' = to /\
+  w_dom w = pre ++ flat_map it_nodes items' ++ mk :: post /\
+  (forall it, In it items' -> In it its \/ In it news) /\
+  (forall it, In it its -> In (it_key it) to -> In it items') /\
+  w_log w = unmount_log ++ nondom_log xof ms ++ dom_log xof ms ++ add_log tasksA /\
+  w_next w = (next + N.of_nat (m * length a))%N /\ w_gen w = gen + length a /\
+  wf_items pre post mk (w_next w) items'.
+Proof.
+  cbv zeta. rewrite apply_general_eq. cbn [with_children w_children w_dom w_log w_next w_gen w_panic].
+  rewrite somes_map_Some.
+  destruct phases_1_4 as [C4 [D4 [L4 [N4 [G4 [P4 M2]]]]]].
+  destruct c4_facts as [A1 [A2 [A3 [A4 A5]]]]. destruct seq1_facts as [S1 S2].
+  pose proof to_length_bound as Hbound.
+  assert (length c4 = length its + length a) as Hlen4.
+  { unfold c4. rewrite nondom_children_length. apply c3_length. }
+  (* moves in the DOM *)
+  assert (forall j mv, nth_error ms j = Some mv -> m_dom mv = true ->
+            nth_error (snd wm2) (0 + j) = Some (Some (xof mv)) /\ m_to mv < length (w_children w4)) as Pre5.
+  { intros j mv Hj Hd. cbn [Nat.add]. rewrite M2, C4, Hlen4. split.
+    - rewrite nth_error_map, Hj. reflexivity.
+    - assert (In mv ms) as Hmv by (eapply nth_error_In; eauto).
+      destruct (ms_facts mv Hmv) as [_ [_ [_ [_ [_ [_ [H7 _]]]]]]]. lia. }
+  pose proof (fold_step_dom (snd wm2) xof ms 0 w4 P4 Pre5) as X5. cbv zeta in X5.
+  destruct X5 as [C5 [D5 [L5 [N5 [G5 P5]]]]].
+  fold w5 in C5, D5, L5, N5, G5, P5. rewrite C4, D4 in C5, D5.
+  destruct (place_all nodes_of U (dom_tasks xof ms) seq1 c4 _ inv4) as [seq5 [I5 [Q5 [Len5 It5]]]].
+  { intros t x Hin. apply dom_tasks_in in Hin. destruct Hin as [mv [Hmv [Hd [Et Ex]]]]. subst t x.
+    destruct (ms_facts mv Hmv) as [H1 [H2 [H3 [H4 [H5 [H6 [H7 H8]]]]]]].
+    assert (In (xof mv) all) as Hall by (unfold all; apply in_or_app; left; auto).
+    destruct (all_nodes _ Hall) as [B1 [B2 B3]]. repeat split; auto; try lia.
+    intro Hc. apply (c4_keys _ _ H4) in Hc. unfold statb in Hc. apply andb_true_iff in Hc.
+    destruct Hc as [_ Hc]. apply negb_true_iff in Hc.
+    rewrite (proj1 (domb_false_iff _) Hc mv Hmv eq_refl) in Hd. discriminate. }
+  { apply dom_tasks_keys_nodup. }
+  set (cd5 := place_fold (dom_tasks xof ms) (c4, render nodes_of pre post mk seq1)) in *.
+  (* additions *)
+  assert (Forall (fun x => a_mode x = Normal /\ a_at x < length to /\ a_at x < length (w_children w5)) a) as Pre6.
+  { rewrite Forall_forall. intros x Hx. destruct (a_facts x Hx) as [Hmo [t [Ht _]]].
+    assert (a_at x < length to) by (apply nth_error_Some; congruence).
+    repeat split; auto. rewrite C5, Len5. lia. }
+  pose proof (fold_step_add m to a w5 P5 Pre6) as X6. cbv zeta in X6.
+  destruct X6 as [C6 [D6 [L6 [N6 [G6 P6]]]]].
+  fold w6 in C6, D6, L6, N6, G6, P6. rewrite N5, G5, N4, G4 in C6, D6, L6. fold tasksA in C6, D6, L6.
+  rewrite N5, N4 in N6. rewrite G5, G4 in G6.
+  rewrite C5, D5 in C6, D6.
+  assert (forall it, In it (somes (fst cd5)) -> In it its) as Old5.
+  { intros it Hit. apply It5 in Hit. destruct Hit as [Hit|Hit]; auto.
+    apply in_map_iff in Hit. destruct Hit as [[t x] [E Hin]]. cbn [snd] in E. subst it.
+    apply dom_tasks_in in Hin. destruct Hin as [mv [Hmv [_ [_ Ex]]]]. subst x.
+    destruct (ms_facts mv Hmv) as [_ [_ [H3 _]]]. auto. }
+  destruct (place_all nodes_of U tasksA seq5 (fst cd5) (snd cd5) I5) as [seq6 [I6 [Q6 [Len6 It6]]]].
+  { intros t x Hin. assert (In x news) as Hn by (unfold news; apply in_map_iff; exists (t, x); auto).
+    assert (In x all) as Hall by (unfold all; apply in_or_app; right; auto).
+    destruct (all_nodes _ Hall) as [B1 [B2 B3]].
+    destruct (add_tasks_in _ _ _ _ _ _ Hin) as [ad [Had [Et Ek]]].
+    destruct (a_facts ad Had) as [_ [k [Hk [Hnf En]]]].
+    assert (a_at ad < length to) by (apply nth_error_Some; congruence).
+    repeat split; auto.
+    - subst t. rewrite Ek, En. auto.
+    - rewrite Len5. lia.
+    - intro Hc. apply in_map_iff in Hc. destruct Hc as [it [E Hit]]. apply Old5 in Hit.
+      apply Hnf. rewrite <- En, <- Ek, <- E. unfold from. apply in_map. auto. }
+  { unfold tasksA. replace (map (fun tx => it_key (snd tx)) (add_tasks m to next gen a))
+      with (map it_key news) by (unfold news, tasksA; rewrite map_map; reflexivity).
+    apply news_keys_nodup. }
+  set (cd6 := place_fold tasksA (fst cd5, snd cd5)) in *.
+  set (items' := somes (fst cd6)).
+  rewrite C6, D6, P6, L6, N6, G6, L5, L4.
+  assert (forall it, In it items' -> In it its \/ In it news) as Prov.
+  { intros it Hit. apply It6 in Hit. destruct Hit as [Hit|Hit]; auto. }
+  (* the final keys are exactly [to] *)
+  assert (map it_key items' = to) as Keys.
+  { apply (sorted_unique tgtk).
+    - apply aligned_sorted; auto. exact (i_aligned _ _ _ _ _ I6).
+    - apply to_sorted; auto.
+    - intros k. split.
+      + intros Hk. apply in_map_iff in Hk. destruct Hk as [it [E Hit]]. apply In_somes_nth in Hit.
+        destruct Hit as [j Hj]. apply (i_aligned _ _ _ _ _ I6) in Hj. rewrite <- E. eapply nth_error_In; eauto.
+      + intros Hk. destruct (in_dec N.eq_dec k from) as [Hf|Hf].
+        * apply In_nth_error in Hf. destruct Hf as [i Hi].
+          destruct (statb from to ms i) eqn:Es.
+          -- apply (c4_keys _ _ Hi) in Es. apply in_map_iff in Es. destruct Es as [it [E Hit]].
+             apply in_map_iff. exists it. split; auto. apply It6. left. apply It5. left. auto.
+          -- unfold statb in Es. assert (retb from to i = true) as Hr.
+             { unfold retb. rewrite Hi. apply memN_In. auto. }
+             rewrite Hr in Es. cbn [andb] in Es. apply negb_false_iff in Es. unfold domb in Es.
+             apply existsb_exists in Es. destruct Es as [mv [Hmv Hb]]. apply andb_true_iff in Hb.
+             destruct Hb as [Hb1 Hb2]. apply Nat.eqb_eq in Hb1.
+             destruct (ms_facts mv Hmv) as [_ [_ [_ [H4 _]]]]. rewrite Hb1, Hi in H4. inversion H4 as [Hk'].
+             apply in_map_iff. exists (xof mv). split; auto. apply It6. left. apply It5. right.
+             apply in_map_iff. exists (m_to mv, xof mv). split; auto. apply dom_tasks_in. eauto.
+        * apply In_nth_error in Hk. destruct Hk as [j Hj].
+          assert (In j (map a_at a)) as Hja.
+          { apply (ls_add _ _ _ _ _ _ _ _ LS). split; [|eauto].
+            assert (j < length to) by (apply nth_error_Some; congruence). lia. }
+          apply in_map_iff in Hja. destruct Hja as [ad [E Had]].
+          assert (In k (map it_key news)) as Hn.
+          { rewrite news_keys. apply in_map_iff. exists ad. split; auto. rewrite E.
+            apply nth_error_nth. auto. }
+          apply in_map_iff in Hn. destruct Hn as [it [E' Hit]]. apply in_map_iff. exists it.
+          split; auto. apply It6. right. auto. }
+  (* ... and so is the order of the items in the DOM *)
+  assert (seq6 = to) as Seq.
+  { pose proof (i_order _ _ _ _ _ I6) as Ho. fold items' in Ho. rewrite Keys in Ho.
+    rewrite <- Ho. symmetry. apply filter_all_true. intros k Hk. apply memN_In.
+    apply Q6 in Hk. destruct Hk as [Hk|Hk].
+    - apply Q5 in Hk. destruct Hk as [Hk|Hk]; [apply S2 in Hk; tauto|].
+      apply in_map_iff in Hk. destruct Hk as [[t x] [E Hin]]. cbn [snd] in E. subst k.
+      apply dom_tasks_in in Hin. destruct Hin as [mv [Hmv [_ [_ Ex]]]]. subst x.
+      destruct (ms_facts mv Hmv) as [_ [_ [_ [_ [_ [_ [_ H8]]]]]]]. auto.
+    - apply news_key_facts. unfold news. rewrite map_map. auto. }
+  assert (forall it, In it items' -> nodes_of (it_key it) = it_nodes it) as Nodes.
+  { intros it Hit. destruct (i_items _ _ _ _ _ I6 it Hit) as [_ [H _]]. auto. }
+  assert (snd cd6 = pre ++ flat_map it_nodes items' ++ mk :: post) as Dom.
+  { rewrite (i_dom _ _ _ _ _ I6), Seq. unfold render. rewrite <- Keys, flat_map_items; auto. }
+  assert (forall it, In it items' -> In it all) as Hall.
+  { intros it Hit. unfold all. apply in_or_app. apply Prov. auto. }
+  split; [reflexivity|]. split; [exact Keys|]. split; [exact Dom|]. split; [exact Prov|].
+  split; [|split; [|split; [reflexivity|split; [reflexivity|]]]].
+  - (* retained items keep their identity *)
+    intros it Hit Hk. rewrite <- Keys in Hk. apply in_map_iff in Hk. destruct Hk as [it' [E Hit']].
+    destruct (Prov it' Hit') as [Ho|Hn].
+    + rewrite (same_key_same_item its it it'); auto. exact (wf_keys _ _ _ _ _ Hwf).
+    + exfalso. assert (In (it_key it') (map it_key news)) as Hc by (apply in_map; auto).
+      apply news_key_facts in Hc. destruct Hc as [_ Hc]. apply Hc. rewrite E. unfold from. apply in_map. auto.
+  - rewrite <- !app_assoc. reflexivity.
+  - (* the new state is well-formed *)
+    constructor.
+    + fold items'. rewrite Keys. auto.
+    + fold items'. rewrite <- Dom, (i_dom _ _ _ _ _ I6). apply render_nodup.
+      * exact (i_seq_nd _ _ _ _ _ I6).
+      * exact (i_seqU _ _ _ _ _ I6).
+    + intros it Hit. exact (wf_nonempty _ _ _ _ _ wf_all it (Hall it Hit)).
+    + intros n Hn. apply (wf_fresh _ _ _ _ _ wf_all).
+      rewrite !in_app_iff in *. destruct Hn as [Hn|[Hn|Hn]]; auto.
+      right. left. apply in_flat_map in Hn. destruct Hn as [it [Hit Hn]]. apply in_flat_map.
+      exists it. split; auto.
+Qed.
+
+End Main.
+End Apply.
